@@ -95,8 +95,9 @@ def evidence_info(prop, tier):
       'expected_probes': ['fault_values', 'fault_nan', 'fault_inf',
                           'fault_huge', 'fault_order', 'fault_terminating',
                           'victim_crossed_episode_boundary',
-                          'contacts_active', 'continuity_filter_used',
-                          'jit_eager_checked', 'domain_rand_checked'],
+                          'contacts_active', 'jit_eager_checked',
+                          'domain_rand_checked'] +
+                         (['continuity_filter_used'] if tier == 'thorough' else []),
       'assumptions': [
           'non-interference is bitwise: both executions use the same compiled '
           'program and shapes',
